@@ -275,7 +275,13 @@ def analyse_pages(outdir, rec, r):
                 rec.hit("symbol_blocks_checked")
                 want_code = value.display_name
                 want_dim = print_dimension(value.dimension)
-                if sm.group(1) != want_code and sm.group(1) != code_str(value):
+                if re.search(r"\b(SYM|FUN|QTY|VEC|SYS)\d+\b", sm.group(1) + " " + sm.group(2)):
+                    rec.violation(f"symbol-internal-name:{stem}.{name}", f"{stem}.{name} is listed under a generated internal name: code {sm.group(1)!r}, LaTeX {sm.group(2)!r}", mcase)
+                try:
+                    want_code = code_str(value)   # (an indexed symbol is listed with its index, a function with its arguments)
+                except Exception:  # pylint: disable=broad-except
+                    pass
+                if sm.group(1) != want_code:
                     rec.violation(f"symbol-code-name:{stem}.{name}", f"{stem}.{name} listed with code name {sm.group(1)!r}, the module's attribute has {want_code!r}", mcase)
                 if norm_tex(sm.group(2)) != norm_tex(value.display_latex) and norm_tex(value.display_latex) not in norm_tex(sm.group(2)):
                     rec.violation(f"symbol-latex-name:{stem}.{name}", f"{stem}.{name} listed with LaTeX name {sm.group(2)!r}, the module's attribute has {value.display_latex!r}", mcase)
